@@ -23,7 +23,7 @@ impl Rng {
         z ^ (z >> 31)
     }
     pub fn below(&mut self, n: u64) -> u64 { if n == 0 { 0 } else { self.next() % n } }
-    pub fn range(&mut self, lo: i64, hi: i64) -> i64 { lo + self.below((hi - lo + 1) as u64) as i64 }
+    pub fn range(&mut self, lo: i64, hi: i64) -> i64 { let span = (hi.wrapping_sub(lo) as u64).wrapping_add(1); lo.wrapping_add(self.below(span) as i64) }
     pub fn chance(&mut self, num: u64, den: u64) -> bool { self.below(den) < num }
     pub fn pick<'a, T>(&mut self, xs: &'a [T]) -> &'a T { &xs[self.below(xs.len() as u64) as usize] }
     pub fn word(&mut self) -> i64 {
